@@ -45,6 +45,10 @@
 (*                       subject is the wallet DID                         *)
 (*   NonceTypeChecked    a proof whose nonce claim is not a string is      *)
 (*                       refused (the code panics: nonce.(string))         *)
+(* off is the set of checks of the code that are switched OFF (chosen in   *)
+(* Init from OffChoices, normally {}): the model without one check shows   *)
+(* what that check is needed for, and its counterexamples are the attacks  *)
+(* replayed on the real code.                                              *)
 (***************************************************************************)
 EXTENDS Naturals, FiniteSets, Sequences, TLC
 
@@ -64,12 +68,14 @@ CONSTANTS
     DropAllowed,         \* responses to "W" may be lost
     Replay,              \* an offer may be delivered to "W" more than once
     UseCover,            \* behaviour generation: remember (action class, outcome) pairs in the state
+    OffChoices,          \* sets of checks of the code that may be switched off ({{}} = the code as it is)
     Hist
 
 MaxOffers == Len(SubjSeq)
 FlowSeq == <<"f1", "f2", "f3">>
 FlowSet == {FlowSeq[i] : i \in 1..MaxOffers}
 AllShapes == {"own", "audX", "badtyp", "forgeW", "wrongtype", "noproof", "nonstr"}
+AllChecks == {"proof", "sig", "signer", "aud", "typ", "nonce", "nonceflow", "ctype", "exp", "burncode", "htype", "hverify"}
 
 JunkId   == [f |-> "junk", k |-> 0]        \* a value the issuer never handed out
 NonStr   == [f |-> "nonstr", k |-> 0]      \* nonce claim that is not a JSON string
@@ -85,6 +91,7 @@ IdleReq == [st |-> "idle", code |-> "junk", tok |-> JunkId, non |-> JunkId]
 IdleW   == [pc |-> "idle", o |-> [to |-> "W", iss |-> "I", code |-> "junk", typ |-> "T1"], tok |-> JunkId, non |-> JunkId]
 
 VARIABLES
+    off,               \* checks switched off in this behaviour (constant after Init)
     now,
     nflows, flows,     \* flows[f] = [subj, exp, st]   st: "none" | "live" | "burnt"
     codes,             \* flows whose pre-authorized code reference is (still) stored; expires with the flow entry
@@ -94,20 +101,22 @@ VARIABLES
     offers,            \* credential offers on the wire (never consumed: an offer can be delivered again)
     w, wruns, handled, stored,  \* the honest wallet
     kcodes, ktoks, knons, kproofs, acreds, asteps,     \* the attacker
-    minted, issuedN, releases, panics,                 \* ledger (ghost)
+    minted, issuedN, releases, redeemed, panics,       \* ledger (ghost)
     cover,             \* (action class, outcome) pairs seen: keeps one witness per combination
     hist
 
-svars == <<now, nflows, flows, codes, toks, nons, ntok, nnon, tr, offers, w, wruns, handled, stored,
-           kcodes, ktoks, knons, kproofs, acreds, asteps, minted, issuedN, releases, panics>>
+svars == <<off, now, nflows, flows, codes, toks, nons, ntok, nnon, tr, offers, w, wruns, handled, stored,
+           kcodes, ktoks, knons, kproofs, acreds, asteps, minted, issuedN, releases, redeemed, panics>>
 vars  == <<svars, cover, hist>>
 view  == <<svars, cover>>
 
+Chk(c) == c \notin off
 Log(e) == hist' = IF Hist THEN Append(hist, e) ELSE hist
 B(x) == IF x THEN "y" ELSE "n"
 Cover(c) == cover' = IF UseCover THEN cover \cup {c} ELSE cover
 
 Init ==
+    /\ off \in OffChoices
     /\ now = 0 /\ nflows = 0
     /\ flows = [f \in FlowSet |-> [subj |-> "none", exp |-> 0, st |-> "none"]]
     /\ codes = {} /\ toks = {} /\ nons = {}
@@ -116,18 +125,19 @@ Init ==
     /\ offers = {}
     /\ w = IdleW /\ wruns = 0 /\ handled = {} /\ stored = {}
     /\ kcodes = {} /\ ktoks = {} /\ knons = {} /\ kproofs = {} /\ acreds = {} /\ asteps = 0
-    /\ minted = {} /\ issuedN = {} /\ releases = <<>> /\ panics = 0
+    /\ minted = {} /\ issuedN = {} /\ releases = <<>> /\ redeemed = {} /\ panics = 0
     /\ cover = {}
-    /\ hist = <<>>
+    /\ hist = IF Hist THEN <<[a |-> "Init", off |-> off]>> ELSE <<>>
 
 (***************************************************************************)
 (* The issuer's store                                                      *)
 (***************************************************************************)
 Subj(f)      == flows[f].subj
-FlowLive(f)  == f \in FlowSet /\ flows[f].st = "live" /\ now < flows[f].exp       \* flowStore.Get(flowID) succeeds
-CodeLive(c)  == c \in codes /\ now < flows[c].exp                                 \* refStore.Exists(code)
-TokLive(t)   == \E e \in toks : e.id = t /\ now < e.exp
-NonLive(n)   == \E e \in nons : e.id = n /\ now < e.exp
+Fresh(exp)   == ~Chk("exp") \/ now < exp                                          \* the entry has not expired
+FlowLive(f)  == f \in FlowSet /\ flows[f].st = "live" /\ Fresh(flows[f].exp)     \* flowStore.Get(flowID) succeeds
+CodeLive(c)  == c \in codes /\ Fresh(flows[c].exp)                               \* refStore.Exists(code)
+TokLive(t)   == \E e \in toks : e.id = t /\ Fresh(e.exp)
+NonLive(n)   == \E e \in nons : e.id = n /\ Fresh(e.exp)
 NextTok(f)   == [f |-> f, k |-> ntok[f] + 1]
 NextNon(f)   == [f |-> f, k |-> nnon[f] + 1]
 
@@ -146,8 +156,8 @@ Offer ==
        /\ offers' = offers \cup {o}
        /\ kcodes' = IF s = "A" \/ LeakCode THEN kcodes \cup {f} ELSE kcodes      \* the attacker's own wallet received it / leak
        /\ Log([a |-> "Offer", f |-> f, subj |-> s])
-    /\ UNCHANGED <<now, toks, nons, ntok, nnon, tr, w, wruns, handled, stored, ktoks, knons, kproofs, acreds, asteps,
-                   minted, issuedN, releases, panics, cover>>
+    /\ UNCHANGED <<off, now, toks, nons, ntok, nnon, tr, w, wruns, handled, stored, ktoks, knons, kproofs, acreds, asteps,
+                   minted, issuedN, releases, redeemed, panics, cover>>
 
 (***************************************************************************)
 (* holder.HandleCredentialOffer: offer checks, issuer metadata.            *)
@@ -160,8 +170,8 @@ Recv(o) ==
     /\ wruns' = wruns + 1
     /\ handled' = handled \cup {o}
     /\ Log([a |-> "Recv", o |-> o, again |-> o \in handled])
-    /\ UNCHANGED <<now, nflows, flows, codes, toks, nons, ntok, nnon, tr, offers, stored,
-                   kcodes, ktoks, knons, kproofs, acreds, asteps, minted, issuedN, releases, panics, cover>>
+    /\ UNCHANGED <<off, now, nflows, flows, codes, toks, nons, ntok, nnon, tr, offers, stored,
+                   kcodes, ktoks, knons, kproofs, acreds, asteps, minted, issuedN, releases, redeemed, panics, cover>>
 
 (***************************************************************************)
 (* issuer.HandleAccessTokenRequest, first part:                            *)
@@ -180,9 +190,10 @@ TokBegin(p, c) ==
                  /\ nons' = nons \cup {[id |-> NextNon(c), exp |-> now + TTL]}
                  /\ ntok' = [ntok EXCEPT ![c] = @ + 1]
                  /\ nnon' = [nnon EXCEPT ![c] = @ + 1]
-                 /\ minted' = minted \cup {[tok |-> NextTok(c), code |-> c, at |-> now, exp |-> now + TTL]}
+                 /\ minted' = minted \cup {[tok |-> NextTok(c), code |-> c, at |-> now, exp |-> now + TTL,
+                                           codeexp |-> flows[c].exp, after |-> c \in redeemed]}
                  /\ issuedN' = issuedN \cup {[id |-> NextNon(c), f |-> c, exp |-> now + TTL]}
-                 /\ codes' = IF AtomicRedeem THEN codes \ {c} ELSE codes
+                 /\ codes' = IF AtomicRedeem /\ Chk("burncode") THEN codes \ {c} ELSE codes
                  /\ tr' = [tr EXCEPT ![p] = [st |-> "found", code |-> c, tok |-> NextTok(c), non |-> NextNon(c)]]
             ELSE /\ tr' = [tr EXCEPT ![p] = [IdleReq EXCEPT !.st = "miss", !.code = c]]
                  /\ UNCHANGED <<toks, nons, ntok, nnon, minted, issuedN, codes>>
@@ -190,8 +201,8 @@ TokBegin(p, c) ==
                tok |-> IF hit THEN NextTok(c) ELSE JunkId, non |-> IF hit THEN NextNon(c) ELSE JunkId])
     /\ w' = IF p = "W" THEN [w EXCEPT !.pc = "tokwait"] ELSE w
     /\ asteps' = IF p = "A" THEN asteps + 1 ELSE asteps
-    /\ UNCHANGED <<now, nflows, flows, offers, wruns, handled, stored, kcodes, ktoks, knons, kproofs, acreds,
-                   releases, panics, cover>>
+    /\ UNCHANGED <<off, now, nflows, flows, offers, wruns, handled, stored, kcodes, ktoks, knons, kproofs, acreds,
+                   releases, redeemed, panics, cover>>
 
 (***************************************************************************)
 (* issuer.HandleAccessTokenRequest, second part: DeleteReference(code) and *)
@@ -204,7 +215,8 @@ TokEnd(p, lost) ==
     /\ lost => (DropAllowed /\ p = "W")
     /\ LET r == tr[p]
            ok == r.st = "found" IN
-       /\ codes' = IF ok THEN codes \ {r.code} ELSE codes
+       /\ codes' = IF ok /\ Chk("burncode") THEN codes \ {r.code} ELSE codes
+       /\ redeemed' = IF ok THEN redeemed \cup {r.code} ELSE redeemed
        /\ tr' = [tr EXCEPT ![p] = IdleReq]
        /\ IF p = "W"
             THEN /\ w' = IF ok /\ ~lost THEN [w EXCEPT !.pc = "cred", !.tok = r.tok, !.non = r.non] ELSE IdleW
@@ -215,7 +227,7 @@ TokEnd(p, lost) ==
                  /\ UNCHANGED w
        /\ Cover(<<"tok", p, B(ok), B(lost), "">>)
        /\ Log([a |-> "TokEnd", p |-> p, ok |-> ok, lost |-> lost, tok |-> r.tok, non |-> r.non])
-    /\ UNCHANGED <<now, nflows, flows, toks, nons, ntok, nnon, offers, wruns, handled, stored, kcodes, kproofs, acreds, asteps,
+    /\ UNCHANGED <<off, now, nflows, flows, toks, nons, ntok, nnon, offers, wruns, handled, stored, kcodes, kproofs, acreds, asteps,
                    minted, issuedN, releases, panics>>
 
 (***************************************************************************)
@@ -224,19 +236,22 @@ TokEnd(p, lost) ==
 (* (generateProofError); the two nonce errors carry none.                  *)
 (***************************************************************************)
 NonFlow(n) == n.f
+ProofOutcome(t, p) ==
+    IF p = NoProof THEN (IF Chk("proof") THEN "invalid_proof_n" ELSE "ok")              \* missing proof / not a jwt proof
+    ELSE IF Chk("sig") /\ ~p.sig THEN "invalid_proof_n"                                 \* crypto.ParseJWT: signature, unknown key
+    ELSE IF Chk("signer") /\ p.kid # Subj(t.f) THEN "invalid_proof_n"                   \* signer DID # subject of the offered credential
+    ELSE IF Chk("aud") /\ p.aud # "I" THEN "invalid_proof_n"                            \* audience # issuer identifier
+    ELSE IF Chk("typ") /\ ~p.typ THEN "invalid_proof_n"                                 \* typ header # openid4vci-proof+jwt
+    ELSE IF p.non = NonStr THEN (IF NonceTypeChecked THEN "invalid_proof_n" ELSE "panic")
+    ELSE IF Chk("nonce") /\ ~NonLive(p.non) THEN "invalid_proof"                        \* unknown nonce (no fresh c_nonce)
+    ELSE IF Chk("nonce") /\ ~FlowLive(NonFlow(p.non)) THEN "server_error"               \* FindByReference(c_nonce): flow entry gone
+    ELSE IF Chk("nonceflow") /\ NonFlow(p.non) # t.f THEN "invalid_proof"               \* nonce not valid for access token
+    ELSE "ok"
 CredOutcome(t, p, rtyp) ==
     IF ~TokLive(t) THEN "invalid_token"                                      \* FindByReference(accesstoken) = nil
     ELSE IF ~FlowLive(t.f) THEN "server_error"                               \* reference found, flow entry gone
-    ELSE IF p = NoProof THEN "invalid_proof_n"                               \* missing proof / not a jwt proof
-    ELSE IF ~p.sig THEN "invalid_proof_n"                                    \* crypto.ParseJWT: signature, unknown key
-    ELSE IF p.kid # Subj(t.f) THEN "invalid_proof_n"                         \* signer DID # subject of the offered credential
-    ELSE IF p.aud # "I" THEN "invalid_proof_n"                               \* audience # issuer identifier
-    ELSE IF ~p.typ THEN "invalid_proof_n"                                    \* typ header # openid4vci-proof+jwt
-    ELSE IF p.non = NonStr THEN (IF NonceTypeChecked THEN "invalid_proof_n" ELSE "panic")
-    ELSE IF ~NonLive(p.non) THEN "invalid_proof"                             \* unknown nonce
-    ELSE IF ~FlowLive(NonFlow(p.non)) THEN "server_error"                    \* FindByReference(c_nonce): flow entry gone
-    ELSE IF NonFlow(p.non) # t.f THEN "invalid_proof"                        \* nonce not valid for access token
-    ELSE IF rtyp # "T1" THEN "invalid_request"                               \* requested credential does not match offer
+    ELSE IF ProofOutcome(t, p) # "ok" THEN ProofOutcome(t, p)
+    ELSE IF Chk("ctype") /\ rtyp # "T1" THEN "invalid_request"               \* requested credential does not match offer
     ELSE "released"
 
 \* the part of the step that changes the issuer: by = who receives the response
@@ -245,7 +260,7 @@ IssuerCred(t, p, rtyp, by, out) ==
     /\ out = CredOutcome(t, p, rtyp)
     /\ out = "invalid_proof_n" => nnon[t.f] < MaxNonce
     /\ nons' = IF out = "invalid_proof_n" THEN nons \cup {[id |-> NextNon(t.f), exp |-> now + TTL]}
-               ELSE IF ProofPassed(out) /\ NonceSingleUse THEN {e \in nons : e.id # p.non}
+               ELSE IF ProofPassed(out) /\ NonceSingleUse /\ p # NoProof THEN {e \in nons : e.id # p.non}
                ELSE nons
     /\ IF out = "invalid_proof_n"
          THEN /\ nnon' = [nnon EXCEPT ![t.f] = @ + 1]
@@ -267,7 +282,10 @@ Released(t)    == [f |-> t.f, subj |-> Subj(t.f), typ |-> "T1", valid |-> TRUE]
 (* holder: ValidateDefinitionWithCredential(received, offered definition)  *)
 (* and vcr.StoreCredential (signature verification).                       *)
 (***************************************************************************)
-HolderAccepts(c, otyp) == /\ c # NoCred /\ c.typ = otyp /\ c.valid
+StoredRec(c, otyp) == [f |-> c.f, subj |-> c.subj, typ |-> c.typ, valid |-> c.valid, otyp |-> otyp]
+HolderAccepts(c, otyp) == /\ c # NoCred
+                          /\ Chk("htype") => c.typ = otyp
+                          /\ Chk("hverify") => c.valid
                           /\ HolderChecksSubject => c.subj = "W"
 
 \* the honest wallet requests the credential from the honest issuer; obs: the attacker learns the served request
@@ -279,7 +297,7 @@ WCred(lost) ==
            out == CredOutcome(w.tok, p, w.o.typ)
            c == IF out = "released" /\ ~lost THEN Released(w.tok) ELSE NoCred IN
        /\ IssuerCred(w.tok, p, w.o.typ, "W", out)
-       /\ stored' = IF HolderAccepts(c, w.o.typ) THEN stored \cup {c} ELSE stored
+       /\ stored' = IF HolderAccepts(c, w.o.typ) THEN stored \cup {StoredRec(c, w.o.typ)} ELSE stored
        /\ ktoks' = IF obs THEN ktoks \cup {w.tok} ELSE ktoks
        /\ kproofs' = IF obs THEN kproofs \cup {p} ELSE kproofs
        /\ knons' = IF out = "invalid_proof_n" /\ LeakSecrets THEN knons \cup {NextNon(w.tok.f)} ELSE knons
@@ -287,7 +305,7 @@ WCred(lost) ==
        /\ Log([a |-> "WCred", lost |-> lost, obs |-> obs, tok |-> w.tok, proof |-> p, rtyp |-> w.o.typ, out |-> out,
                newnon |-> NewNon(w.tok, out), stores |-> HolderAccepts(c, w.o.typ)])
     /\ w' = IdleW
-    /\ UNCHANGED <<now, nflows, codes, ntok, tr, offers, wruns, handled, kcodes, acreds, asteps, minted>>
+    /\ UNCHANGED <<off, now, nflows, codes, ntok, tr, offers, wruns, handled, kcodes, acreds, asteps, minted, redeemed>>
 
 (***************************************************************************)
 (* The attacker calls the credential endpoint: with a proof he makes       *)
@@ -313,7 +331,7 @@ AttackerRequest(t, p, rtyp, rec) ==
        /\ Cover(<<"acred", rec.shape, out, IF TokLive(t) THEN Subj(t.f) ELSE "none", IF NonLive(p.non) THEN Subj(p.non.f) ELSE "none">>)
        /\ Log([a |-> "ACred", tok |-> t, proof |-> p, rtyp |-> rtyp, shape |-> rec.shape, out |-> out,
                newnon |-> NewNon(t, out)])
-    /\ UNCHANGED <<now, nflows, codes, ntok, tr, offers, w, wruns, handled, stored, kcodes, ktoks, kproofs, minted>>
+    /\ UNCHANGED <<off, now, nflows, codes, ntok, tr, offers, w, wruns, handled, stored, kcodes, ktoks, kproofs, minted, redeemed>>
 
 ACred(t, shape, n) ==
     /\ t \in ktoks \cup {JunkId}
@@ -339,8 +357,8 @@ Forge(iss, c, typ) ==
        /\ o \notin offers
        /\ offers' = offers \cup {o}
        /\ Log([a |-> "Forge", o |-> o])
-    /\ UNCHANGED <<now, nflows, flows, codes, toks, nons, ntok, nnon, tr, w, wruns, handled, stored,
-                   kcodes, ktoks, knons, kproofs, acreds, minted, issuedN, releases, panics, cover>>
+    /\ UNCHANGED <<off, now, nflows, flows, codes, toks, nons, ntok, nnon, tr, w, wruns, handled, stored,
+                   kcodes, ktoks, knons, kproofs, acreds, minted, issuedN, releases, redeemed, panics, cover>>
 
 \* "W" asks the rogue issuer for a token: the attacker answers with a c_nonce of his choice
 WTokX(n) ==
@@ -348,8 +366,8 @@ WTokX(n) ==
     /\ n \in knons \cup {JunkId}
     /\ w' = [w EXCEPT !.pc = "cred", !.tok = JunkId, !.non = n]
     /\ Log([a |-> "WTokX", non |-> n])
-    /\ UNCHANGED <<now, nflows, flows, codes, toks, nons, ntok, nnon, tr, offers, wruns, handled, stored,
-                   kcodes, ktoks, knons, kproofs, acreds, asteps, minted, issuedN, releases, panics, cover>>
+    /\ UNCHANGED <<off, now, nflows, flows, codes, toks, nons, ntok, nnon, tr, offers, wruns, handled, stored,
+                   kcodes, ktoks, knons, kproofs, acreds, asteps, minted, issuedN, releases, redeemed, panics, cover>>
 
 \* "W" sends its proof (audience = "X") to the rogue issuer, which answers with a credential of its choice
 WCredX(c) ==
@@ -357,24 +375,24 @@ WCredX(c) ==
     /\ c \in RogueCreds \cup {NoCred}
     /\ LET p == Proof("W", TRUE, "X", TRUE, w.non) IN
        /\ kproofs' = kproofs \cup {p}
-       /\ stored' = IF HolderAccepts(c, w.o.typ) THEN stored \cup {c} ELSE stored
+       /\ stored' = IF HolderAccepts(c, w.o.typ) THEN stored \cup {StoredRec(c, w.o.typ)} ELSE stored
        /\ Cover(<<"wcredx", c.subj, c.typ, B(c.valid), w.o.typ>>)
        /\ Log([a |-> "WCredX", proof |-> p, cred |-> c, otyp |-> w.o.typ, stores |-> HolderAccepts(c, w.o.typ)])
     /\ w' = IdleW
-    /\ UNCHANGED <<now, nflows, flows, codes, toks, nons, ntok, nnon, tr, offers, wruns, handled,
-                   kcodes, ktoks, knons, acreds, asteps, minted, issuedN, releases, panics>>
+    /\ UNCHANGED <<off, now, nflows, flows, codes, toks, nons, ntok, nnon, tr, offers, wruns, handled,
+                   kcodes, ktoks, knons, acreds, asteps, minted, issuedN, releases, redeemed, panics>>
 
 (***************************************************************************)
 (* Time: expired entries are gone (go-cache drops them on access).         *)
 (***************************************************************************)
 Tick ==
     /\ now < MaxNow /\ now' = now + 1
-    /\ toks' = {e \in toks : now + 1 < e.exp}
-    /\ nons' = {e \in nons : now + 1 < e.exp}
-    /\ codes' = {c \in codes : now + 1 < flows[c].exp}
+    /\ toks' = {e \in toks : ~Chk("exp") \/ now + 1 < e.exp}
+    /\ nons' = {e \in nons : ~Chk("exp") \/ now + 1 < e.exp}
+    /\ codes' = {c \in codes : ~Chk("exp") \/ now + 1 < flows[c].exp}
     /\ Log([a |-> "Tick", now |-> now + 1])
-    /\ UNCHANGED <<nflows, flows, ntok, nnon, tr, offers, w, wruns, handled, stored,
-                   kcodes, ktoks, knons, kproofs, acreds, asteps, minted, issuedN, releases, panics, cover>>
+    /\ UNCHANGED <<off, nflows, flows, ntok, nnon, tr, offers, w, wruns, handled, stored,
+                   kcodes, ktoks, knons, kproofs, acreds, asteps, minted, issuedN, releases, redeemed, panics, cover>>
 
 Next ==
     \/ Offer
@@ -418,9 +436,9 @@ ReleaseAuthorized ==
         /\ \E n \in issuedN : n.id = r.proof.non /\ n.f = r.f /\ r.at < n.exp
         /\ r.rtyp = "T1"
 
-\* R2: an access token is only handed out for a live, not yet redeemed pre-authorized code ...
-TokenFromLiveCode == \A m \in minted : m.at < flows[m.code].exp
-\* ... and a code yields one token (needs AtomicRedeem)
+\* R2: an access token is only handed out for a live pre-authorized code that has not been redeemed before ...
+TokenFromLiveCode == \A m \in minted : m.at < m.codeexp /\ ~m.after
+\* ... and, also under concurrency, a code yields one token (needs AtomicRedeem)
 CodeSingleUse == \A f \in FlowSet : Cardinality({m \in minted : m.code = f}) <= 1
 
 \* R3: each offer yields at most one credential release / a proof is honoured once (needs BurnOnRelease)
@@ -431,7 +449,7 @@ ProofSingleUse == \A i, j \in 1..Len(releases) : (releases[i].proof = releases[j
 OnlySubjectObtains == \A f \in acreds : Subj(f) = "A"
 
 \* R5: the honest wallet stores only credentials that verify, have the offered type and are about the wallet DID
-HolderStoresVerified == \A c \in stored : c.valid
+HolderStoresVerified == \A c \in stored : c.valid /\ c.typ = c.otyp
 HolderStoresOwn      == \A c \in stored : c.subj = "W"
 
 \* R6
